@@ -40,7 +40,7 @@ def requirements(tier):
     for name in E.ALL:
         r[f"judged:{name}/perm"] = 15
         r[f"judged:{name}/zeros"] = 15
-    r.update({"w_rank_deficient_judged": 200, "w_float32": 500, "rng_recorder_hits": 1, "judged_many_zero_columns": 60, "w_all_entries_below_norm_eps_but_s_above": 100, "w_column_major_input": 300, "w_dense_wide_matrix": 30})
+    r.update({"w_rank_deficient_judged": 200, "w_float32": 500, "rng_recorder_hits": 1, "judged_many_zero_columns": 60, "w_all_entries_below_norm_eps_but_s_above": 100, "w_column_major_input": 300, "w_dense_wide_matrix": 30, "w_negative_preference_entry_judged": 30})
     return r
 
 
@@ -79,6 +79,16 @@ def gen_case(rng, i):
     desc = E.config(rng, name, m, dname)
     if desc is None:
         return None
+    if name in ("UPGrad", "DualProj") and rng.random() < 0.2:
+        # the library accepts preference vectors with NEGATIVE entries (the projection of such a vector is not the vector itself,
+        # even when no two rows conflict); half of them on a matrix whose columns are sign-consistent (no conflict is visible in
+        # the raw entries, while a rotation of the coordinates hides that)
+        u = np.round(rng.uniform(-2, 2, size=m), 3)
+        u[int(rng.integers(m))] = -float(np.round(rng.uniform(0.2, 2), 3))
+        desc["pref"] = [float(x) for x in u]
+        if rng.random() < 0.5:
+            J = np.abs(J) * rng.choice([-1.0, 1.0], size=(1, J.shape[1]))
+            klass += "+sign_consistent_columns"
     if name in E.GRAMIAN_BASED:
         kind = KINDS[int(rng.integers(len(KINDS)))]
     else:
@@ -251,6 +261,8 @@ def check_case(case, ctx):
         ctx.count("w_all_entries_below_norm_eps_but_s_above")
     if dname == "float32":
         ctx.count("w_float32")
+    if desc.get("pref") is not None and min(desc["pref"]) < 0:
+        ctx.count("w_negative_preference_entry_judged")
     ctx.klass(f"class={case['class']}")
     ctx.evaluated(fingerprint(case), nontrivial=nontrivial)
     ctx.sample({"J": np.round(J[:, :8], 4).tolist(), "columns": n, "agg": desc, "transformation": kind, "dtype": dname, "class": case["class"]})
